@@ -15,12 +15,28 @@ import (
 var orderKeyPool = []string{"a", "B", "aa", "Z", "é", "z", "~", "a b", "ÿ", "😀", "ａ", "A", "b", "ab", "aB", "a\u0000", "", "0", "10", "9", "_", "-", "a.b", "'", "\"", "\\", "é́", "é", "\U0001F600\U0001F600", "￿", "", "zz", "Zz", "zZ", "aaa", "1"}
 
 // buildOrdered builds the same object by inserting the keys in the given order.
-// Every member is {"v": key, "n": {"v": key+"/n"}} so that an inner key
+// Most members are {"v": key, "n": {"v": key+"/n"}, ...} so that an inner key
 // collection runs while an outer loop is in progress.
 func buildOrdered(keys []string) map[string]interface{} {
 	m := map[string]interface{}{}
 	for _, k := range keys {
-		m[k] = map[string]interface{}{"v": k, "n": map[string]interface{}{"v": k + "/n"}, "l": []interface{}{k + "/l0", k + "/l1"}, "B": []interface{}{k + "/B0"}, "é": []interface{}{k + "/é0", k + "/é1"}}
+		// the members differ in shape (decided by the key alone, so equal key sets build equal objects): flat ones next to
+		// nested ones, arrays next to objects, two and three levels - whatever the descent does per kind of child, siblings
+		// of every kind meet in every order
+		h := len(k)
+		for _, b := range []byte(k) {
+			h = h*31 + int(b)
+		}
+		switch h % 5 {
+		case 0:
+			m[k] = map[string]interface{}{"v": k} // flat: scalars only
+		case 1:
+			m[k] = []interface{}{k + "/0", k + "/1"} // flat array
+		case 2:
+			m[k] = map[string]interface{}{"v": k, "n": map[string]interface{}{"v": k + "/n", "n": map[string]interface{}{"v": k + "/n/n", "l": []interface{}{k + "/n/n/l0"}}}}
+		default:
+			m[k] = map[string]interface{}{"v": k, "n": map[string]interface{}{"v": k + "/n"}, "l": []interface{}{k + "/l0", k + "/l1"}, "B": []interface{}{k + "/B0"}, "é": []interface{}{k + "/é0", k + "/é1"}}
+		}
 	}
 	return m
 }
@@ -149,9 +165,11 @@ func runC07(c *harness.Ctx, reps int) {
 	want := lib.JS(specValues(res))
 	if shape.name == "wildcard" {
 		// independent of SPEC: the directly sorted key list
-		vals := make([]interface{}, len(sorted))
-		for i, k := range sorted {
-			vals[i] = k
+		vals := []interface{}{}
+		for _, k := range sorted {
+			if mm, ok := builds[0][k].(map[string]interface{}); ok && mm["v"] == k { // flat array members have no "v"
+				vals = append(vals, k)
+			}
 		}
 		if direct := lib.JS(vals); direct != want {
 			c.Inconclusive("SPEC and the directly sorted key list disagree for " + text)
@@ -172,6 +190,9 @@ func runC07(c *harness.Ctx, reps int) {
 			o = lib.Call(po.F, b)
 		}
 		got := o.String()
+		if len(res) == 0 && o.Panic == nil && o.Err != nil {
+			got = want // the definition selects nothing here: the retrieval has to fail (which error is C15's business), and it did
+		}
 		if got != want {
 			c.Violation("order "+text+" "+strings.Join(sorted, ","), fmt.Sprintf("repetition %d on build %d returned a different sequence than sorted-key / pre-order / written order", i+1, i%3+1),
 				map[string]interface{}{"path": text, "keys_sorted": sorted, "expected": want, "got": got, "repetition": i + 1})
